@@ -126,6 +126,8 @@ func (k msgServer) Complete(goCtx context.Context, msg *types.MsgComplete) (*typ
 			orderInProgress, _ = k.order.GetOrder(ctx, oldShard.OrderId)
 			orderList = append(orderList, &orderInProgress)
 		}
+		// the order Migrate attached the new shard to
+		attachedTo := shard.OrderId
 		shard.OrderId = oldShard.OrderId
 		shard.RenewInfos = oldShard.RenewInfos
 		shard.CreatedAt = uint64(ctx.BlockHeight())
@@ -163,6 +165,28 @@ func (k msgServer) Complete(goCtx context.Context, msg *types.MsgComplete) (*typ
 			}
 			order.Shards = newShards
 			k.order.SetOrder(ctx, *order)
+		}
+		// the old shard has rolled over to a renewal order since the migration was started:
+		// the order it served then has ended for this shard and must not keep listing the new one
+		stale := true
+		for _, o := range orderList {
+			if o.Id == attachedTo {
+				stale = false
+			}
+		}
+		if staleOrder, found := k.order.GetOrder(ctx, attachedTo); stale && found {
+			newShards := make([]uint64, 0)
+			for _, id := range staleOrder.Shards {
+				if id != shard.Id && id != oldShard.Id {
+					newShards = append(newShards, id)
+				}
+			}
+			if len(newShards) == 0 {
+				k.order.RemoveOrder(ctx, staleOrder.Id)
+			} else {
+				staleOrder.Shards = newShards
+				k.order.SetOrder(ctx, staleOrder)
+			}
 		}
 	} else {
 		shard.CreatedAt = uint64(ctx.BlockHeight())
